@@ -215,10 +215,15 @@ fn handle_diagnostics(
         match project {
             Some(set) => {
                 for file_id in unique_files {
-                    if let Some(content) = set.get(file_id) {
-                        let id = files.add(file_id.to_string(), content.as_string());
-                        files_to_ids.insert(file_id, id);
-                    }
+                    // A diagnostic can be about a file that is not in the project
+                    // (for example, a file that could not be read). Such a file
+                    // has a name but no content to show.
+                    let content = match set.get(file_id) {
+                        Some(content) => content.as_string(),
+                        None => empty_source,
+                    };
+                    let id = files.add(file_id.to_string(), content);
+                    files_to_ids.insert(file_id, id);
                 }
             }
             None => {
@@ -246,19 +251,20 @@ fn map_diagnostic(
 ) -> CodeSpanDiagnostic<usize> {
     let description = diagnostic.description();
 
-    // Set the primary labels
-    let mut labels = vec![map_label(
-        &diagnostic.primary,
-        LabelStyle::Primary,
-        file_to_id,
-    )];
+    // Set the primary label. A label that is not associated with a file
+    // (such as for a problem with the set of files as a whole) cannot be shown
+    // in a file; the diagnostic is then shown without that label.
+    let mut labels: Vec<CodeSpanLabel<usize>> =
+        map_label(&diagnostic.primary, LabelStyle::Primary, file_to_id)
+            .into_iter()
+            .collect();
 
     // Add any secondary labels
     labels.extend(
         diagnostic
             .secondary
             .iter()
-            .map(|lbl| map_label(lbl, LabelStyle::Secondary, file_to_id)),
+            .filter_map(|lbl| map_label(lbl, LabelStyle::Secondary, file_to_id)),
     );
 
     CodeSpanDiagnostic::new(Severity::Error)
@@ -271,13 +277,17 @@ fn map_label(
     label: &Label,
     style: LabelStyle,
     file_to_id: &HashMap<&FileId, usize>,
-) -> CodeSpanLabel<usize> {
+) -> Option<CodeSpanLabel<usize>> {
+    if label.file_id == FileId::default() {
+        return None;
+    }
     let range = Range {
         start: label.location.start,
         end: label.location.end,
     };
-    let id = file_to_id.get(&label.file_id);
-    CodeSpanLabel::new(style, *id.unwrap_or(&0), range).with_message(&label.message)
+    file_to_id
+        .get(&label.file_id)
+        .map(|id| CodeSpanLabel::new(style, *id, range).with_message(&label.message))
 }
 
 fn diagnostic(problem: Problem, path: &Path, message: String) -> Vec<Diagnostic> {
